@@ -604,9 +604,10 @@ def d6_codecs(chk, repo, v, r):
     # decision tree is written): None is among them, and a word read from the file arrives only when it is not the placeholder
     from ..lib import gated_expr
     ok = False
+    from ..lib import returned_call
     for ret_stmt in r.returns():
-        call = ret_stmt.value
-        if not isinstance(call, ast.Call):
+        call, ret_stmt = returned_call(r, ret_stmt)
+        if call is None:
             continue
         kwn = [k.value for k in call.keywords if k.arg == "unit"]
         if not kwn or sent is None:
@@ -920,9 +921,10 @@ def d9_details(chk, repo, v, r):
     from ..lib import gated_expr
 
     def kw_alts(kwname):
+        from ..lib import returned_call
         for ret_stmt in r.returns():
-            call = ret_stmt.value
-            if isinstance(call, ast.Call):
+            call, ret_stmt = returned_call(r, ret_stmt)
+            if call is not None:
                 kwn = [k.value for k in call.keywords if k.arg == kwname]
                 if kwn:
                     return gated_expr(r, kwn[0], ret_stmt) or [], ret_stmt
